@@ -13,9 +13,14 @@ open Pm Pm.Header Pm.Resolver
 /-- Go `int32` addition followed by `/ 2` (truncating division) -/
 def i32avg (a b : Int) : Int := Int.tdiv (toI32 (ofI32 (a + b))) 2
 
+/-- the last tile an entry addresses: `TileID + RunLength - 1` (uint64); the first one for run lengths ≤ 1 -/
+def lastTile (e : Entry) : Nat := if e.rl > 1 then (e.id + e.rl - 1) % 2^64 else e.id
+
+/-- minimum zoom from the first entry's first tile, maximum zoom from the LAST tile of the last entry's run
+    (fix D24: a run may reach into the next zoom level) -/
 def setZoomCenterDefaults (h : Header) (entries : List Entry) : Header :=
   let h1 := { h with minZoom := TileId.goZoom ((entries.headD default).id),
-                     maxZoom := TileId.goZoom ((entries.getLastD default).id) }
+                     maxZoom := TileId.goZoom (lastTile (entries.getLastD default)) }
   if h1.centerZoom = 0 ∧ h1.centerLonE7 = 0 ∧ h1.centerLatE7 = 0 then
     { h1 with centerZoom := h1.minZoom,
               centerLonE7 := i32avg h1.minLonE7 h1.maxLonE7,
